@@ -189,7 +189,7 @@ def validate_file(ctx, pid, path, cfgdir):
            "states": 0, "generated": 0}
     if not events:
         return out
-    pc = write_trace_cfg(cfgdir, pid, True)
+    pc = os.path.join(cfgdir, "TraceTaskEngine_gen_%s_p.cfg" % pid)   # written once by run() (threads share it)
     e1 = dict(env, VERIF_MODE="precise")
     tv = tlc.validate_trace(ctx, "TraceTaskEngine", os.path.basename(pc), path, env=e1, extra_files=[pc],
                             timeout=ctx.pick(900, 3000), name="tv_p_" + os.path.basename(path)[:-7])
@@ -207,7 +207,7 @@ def validate_file(ctx, pid, path, cfgdir):
             replay={"trace": case_events(events, line), "mode": "precise"}))
         return out
     # precise conformance failed (or the spec's own monitors tripped): evaluate P's oracle on the full real trace
-    mc = write_trace_cfg(cfgdir, pid, False)
+    mc = os.path.join(cfgdir, "TraceTaskEngine_gen_%s_m.cfg" % pid)
     e2 = dict(env, VERIF_MODE="permissive")
     tv2 = tlc.validate_trace(ctx, "TraceTaskEngine", os.path.basename(mc), path, env=e2, extra_files=[mc],
                              timeout=ctx.pick(900, 3000), name="tv_m_" + os.path.basename(path)[:-7])
@@ -297,6 +297,8 @@ def run(ctx, pid):
     violations.extend(abort_order_probe(ctx, pid))
     files = sorted(glob.glob(os.path.join(out, "trace_*.ndjson")))
     cfgdir = ctx.subdir("tcfg")
+    write_trace_cfg(cfgdir, pid, True)
+    write_trace_cfg(cfgdir, pid, False)
     results = []
     with concurrent.futures.ThreadPoolExecutor(max_workers=ctx.pick(4, 8)) as ex:
         for r in ex.map(lambda f: validate_file(ctx, pid, f, cfgdir), files):
